@@ -673,17 +673,18 @@ def r01_6(ctx, prog, crate):
         sends = [c for c in bc.live_calls() if c.callee == "std::sync::mpsc::SyncSender::send"]
         spawns = [c for c in bc.live_calls() if c.callee == "util::thread::pool::spawn"]
         guard = None
+        from lib.symexpr import Sym as _Sym, bool_switch as _bool_switch
+        S_ = _Sym(bc, site_args=True)
         for bi, t in bc.switches():
-            d = direct_place(bc, t["discr"])
-            if d and d[0] == "rvalue" and d[1]["k"] == "binop" and d[1]["op"] in ("Gt", "Ne") and const_int(d[1]["b"]) == 0:
-                x = direct_place(bc, d[1]["a"])
-                if x and x[0] == "place" and x[1] == 2 and x[2] == ():
-                    guard = (bi, t)
+            bs_ = _bool_switch(bc, S_, bi)
+            # `aux_threads > 0`, `!= 0`, `== 0` with the branches swapped or an early return: one test of the parameter against 0
+            if bs_ is not None and bs_[0][0] == "Eq" and set(bs_[0][1:]) == {("int", 0), ("arg", 2, ())}:
+                guard = (bi, bs_[1], bs_[2])
         if ctx.check(guard is not None, "R01.6", ["broadcast_task", "aux>0-guard"], "no `aux_threads > 0` guard", bc.where(0)):
-            bi, t = guard
-            zero = [a[1] for a in t["arms"] if a[0] == "0"]
+            bi, zero_t, pos_t = guard
+            zero = [zero_t]
             for c in sends + spawns:
-                ctx.check(zero and c.bb not in bc.reach(zero) and bc.dominates(t["otherwise"], c.bb), "R01.6", ["broadcast_task", "no-dispatch-when-aux-0", c.callee.rsplit("::", 1)[-1]],
+                ctx.check(c.bb not in bc.reach(zero, avoid=[pos_t]) and bc.dominates(pos_t, c.bb), "R01.6", ["broadcast_task", "no-dispatch-when-aux-0", c.callee.rsplit("::", 1)[-1]],
                           "`%s` is reachable with aux_threads == 0: a _local benchmark could leave the calling thread" % c.callee, c.line())
     # who may call SyncWrap::new
     sites = [c for c in prog.callers_of("util::sync::SyncWrap::new", crates=[crate]) if "::tests::" not in c.body.path]
